@@ -17,7 +17,9 @@ EXTERNAL = {
                'the call (this is the range half of C07).',
     'time': 'time.time() returns a non-decreasing real (ghost now); time.sleep returns',
     'threading': 'Thread.start runs the target later exactly once; Event/RLock per DESIGN 2.8',
-    'bisect': 'bisect_left / bisect / insort on a sorted sequence return / insert at the partition point',
+    'bisect': 'bisect_left / bisect / insort on a sorted sequence return / insert at the partition point: discharged for the '
+              'pure-Python reference implementation in the running interpreter\'s bisect.py (contracts/c13_bisect_ref.py, '
+              'loop invariant + variant, any length); assumed: the C accelerator _bisect that shadows it computes the same function',
     'random': 'randrange(a, b) returns some integer of [a, b) and raises ValueError when empty; random() some real of [0, 1); uniform(a, b) some real between a and b, the far end-point excluded',
 }
 
